@@ -254,10 +254,34 @@ pub fn run(tier: &Tier) -> i32 {
     let lf = logic_forms(tier.thorough);
     sweep_logic_forms(&rep, &c, &lf, tier.thorough);
 
+    // histories
+    let seq_depth = if tier.thorough { 4 } else { 3 };
+    let seq = {
+        use crate::ast::b::*;
+        let ins = |it: Item| match it {
+            Item::Ins(i) => i,
+            _ => unreachable!(),
+        };
+        let focus = vec![
+            ins(bin(BinOp::And, r16("ax"), r16("bx"))),
+            ins(bin(BinOp::Or, direct(W::B, 0x0020), imm(0x81))),
+            ins(bin(BinOp::Xor, r16("ax"), direct(W::W, 0x0020))),
+            ins(bin(BinOp::Test, r16("ax"), imm(0x8000))),
+            ins(un(UnOp::Not, r16("ax"))),
+            Instr::Shift(ShOp::Shl, r16("ax"), Count::Imm(1)),
+            Instr::Shift(ShOp::Shr, r8("al"), Count::Cl),
+            Instr::Shift(ShOp::Sar, direct(W::W, 0x0020), Count::Imm(3)),
+            Instr::Shift(ShOp::Rol, r16("bx"), Count::Cl),
+            Instr::Shift(ShOp::Rcl, r16("ax"), Count::Imm(1)),
+            Instr::Shift(ShOp::Rcr, direct(W::B, 0x0021), Count::Cl),
+            Instr::Shift(ShOp::Ror, r8("al"), Count::Imm(8)),
+        ];
+        crate::seqx::explore_sequences(&rep, &c, &focus, &crate::seqx::context_alphabet(), seq_depth, &crate::seqx::default_inits())
+    };
     let mut cov = Coverage::default();
     cov.exhaustive = true;
-    cov.rule = "every case = (source instruction, pre-state) executed through Preprocessor+Interpreter, compared in full with the reference (shift/rotate = count single-bit steps). Canonical register forms: all 256 byte values x all 256 counts x carry-in x 2 prior flag words for the 8 shift/rotate spellings, immediate and CL counts (words: boundary lattice in quick, all 65536 values in thorough); logic ops all 2^16 byte pairs; NOT all values; plus every operand form of syntax.md x boundary values x boundary counts. distinct_nontrivial = distinct (instruction, pre-state) pairs".into();
-    cov.bounds = json!({"counts": 256, "byte_values": 256, "word_values": if tier.thorough {65536} else {wl.len()}, "shift_forms": sf.len(), "logic_forms": lf.len(), "tier": tier.name()});
+    cov.rule = "every case = (source instruction, pre-state) executed through Preprocessor+Interpreter, compared in full with the reference (shift/rotate = count single-bit steps). Canonical register forms: all 256 byte values x all 256 counts x carry-in x 2 prior flag words for the 8 shift/rotate spellings, immediate and CL counts (words: boundary lattice in quick, all 65536 values in thorough); logic ops all 2^16 byte pairs; NOT all values; plus every operand form of syntax.md x boundary values x boundary counts. distinct_nontrivial = distinct (instruction, pre-state) pairs Histories: every sequence of up to 3 (thorough 4) instructions over the property's instructions plus a 16-instruction context alphabet (register, memory, stack and flag traffic), with at least one of the property's instructions, as ONE program on ONE machine and ONE Interpreter object from 3 initial states, compared with the reference after every step (whole memory on every 16th run)".into();
+    cov.bounds = json!({"counts": 256, "byte_values": 256, "word_values": if tier.thorough {65536} else {wl.len()}, "shift_forms": sf.len(), "logic_forms": lf.len(), "sequence_depth": seq_depth, "sequences": seq.sequences, "sequence_steps": seq.steps, "sequence_whole_memory_audits": seq.audits, "tier": tier.name()});
     cov.assumptions = common_assumptions();
     let cov = finish_cov(&c, cov);
     rep.finish(cov)
